@@ -96,7 +96,7 @@ func fieldRunner[S any](a *fapi[S]) runner {
 				if i > 2*cfg.win {
 					lab = "large"
 				}
-				ev := map[string]any{"a": "rt", "curve": a.name, "api": d.api, "fmt": d.rule, "label": lab, "k": i - cfg.win, "elem": tokV(v)}
+				ev := map[string]any{"a": "rt", "curve": a.name, "api": d.api, "fmt": d.rule, "label": lab, "k": i - cfg.win, "elem": tokV(v), "elemNeg": 0}
 				var enc []byte
 				var err error
 				if msg := guard(func() { enc, err = d.enc(el) }); msg != "" || err != nil {
@@ -433,7 +433,7 @@ func gtRunner() runner {
 				if k == 0 {
 					lab = "identity"
 				}
-				ev := map[string]any{"a": "rt", "curve": "bls-gt", "api": d.api, "fmt": "gt", "label": lab, "k": k, "elem": tokG(want)}
+				ev := map[string]any{"a": "rt", "curve": "bls-gt", "api": d.api, "fmt": "gt", "label": lab, "k": k, "elem": tokG(want), "elemNeg": 0}
 				var enc []byte
 				var err error
 				if msg := guard(func() { enc, err = d.enc(e) }); msg != "" || err != nil {
